@@ -1,5 +1,5 @@
 (* Entry points of the executable model used by the correspondence check (extracted). *)
-From RP Require Import Base Stream Target Socks Http Frames Frag MiluSyntax MiluParser MiluDoc MiluEval Dispatch MiluSound MiluWf MiluSoundLet Reload Lb Callbacks RtLeaf MiluRoundtrip Idle Config Registry Auth.
+From RP Require Import Base Stream Target Socks Http Frames Frag MiluSyntax MiluParser MiluDoc MiluEval Dispatch MiluSound MiluWf MiluSoundLet Reload Lb Callbacks RtLeaf MiluRoundtrip MiluRoundtripWs Idle Config Registry Auth.
 From RP.Gen Require Gen_ladder.
 
 Definition HFUEL : nat := 4000.   (* header lines per HTTP head in generated cases are far fewer *)
@@ -80,3 +80,6 @@ Definition x_auth_check (required : bool) (users : list (bytes * bytes)) (k : op
 
 (* the let fragment of the soundness theorem (C08) *)
 Definition x_wf_slb := wf_slb.
+
+(* the filler printer of C09_parse_print_roundtrip_any_filler: the k-th gap gets the k-th filler of the list *)
+Definition x_rt_print_ws (fs : list bytes) (t : tree) : bytes := m_print_ws (fun k => nth k fs [32]%N) t.
